@@ -78,7 +78,12 @@ func (ec *Collector) Len() int { defer with(lock(&ec.mu)); return ec.stack.Len()
 // collector.
 func (ec *Collector) Iterator() *fun.Iterator[error] {
 	defer with(lock(&ec.mu))
-	return fun.CheckProducer(ec.stack.CheckProducer()).Iterator()
+	// iterate over a snapshot of the head node: later calls to Add
+	// modify the head under the lock while the iterator is used
+	// without it; the nodes behind the head are never modified once
+	// linked, so a copy of the head is a consistent, immutable view.
+	snapshot := ec.stack
+	return fun.CheckProducer(snapshot.CheckProducer()).Iterator()
 }
 
 // Resolve returns an error of type *erc.Stack, or nil if there have
